@@ -28,7 +28,12 @@ RULE = ("random molecule G (gens.rand_mol, 1-8 atoms, rings, orders 1/1.5/2/3) a
         "compared with equiv_mod_idxb (check 'invariant'); 60% of the from_smiles cases are histories: the string is read, the "
         "first ITS object is edited in place (remove node/edge, rename symbol, relabel edge, add node, change aam, drop "
         "idx_map) or used (prune, split, to_smiles), the string is read AGAIN and the SECOND result is compared with the "
-        "model/spec and must not share its graph or any attribute dict with the first. "
+        "model/spec and must not share its graph or any attribute dict with the first; 15% of the get_its cases are "
+        "derivation histories: the base graph OBJECTS go through get_its, then the graphs under test are derived from those "
+        "objects with Graph.copy / nx.relabel_nodes(copy=True|False) / subgraph(..).copy() / the same object, ids permuted "
+        "and map numbers permuted, renumbered or dropped, and get_its on the derived objects is compared with the model on "
+        "the derived contents; every call is checked to leave nodes, adjacency, all attribute dicts and G.graph / H.graph "
+        "of its arguments unchanged. "
         "non-trivial = ITS with >= 2 nodes and >= 1 edge; distinct = distinct (G, H) incl. ids, orders and maps")
 TRUSTED = ["model of the attribute dict as a record of the five keys FGUtils uses",
            "RDKit SMILES parser (fgutils.rdkit.smiles_to_graph) in the from_smiles stream: its output graphs are the model's input"]
@@ -210,6 +215,112 @@ def smiles_case(smiles):
     return {"op": "from_smiles", "smiles": smiles, "G": g, "H": h, "policy": "smiles", "scheme": "rdkit/rdkit"}
 
 
+DERIV_HOWS = ["copy", "relabel_copy", "relabel_copy", "relabel_inplace", "subgraph", "same"]
+
+
+def rand_deriv(rng, g, aam_map=None):
+    """A JSON-able recipe that derives a second graph from the graph OBJECT g with real networkx operations
+    (Graph.copy, nx.relabel_nodes copy=True / copy=False, Graph.subgraph(..).copy(), or the same object again),
+    ids permuted and / or map numbers changed."""
+    ns = list(g.nodes)
+    how = rng.choice(DERIV_HOWS)
+    spec = {"how": how}
+    if how == "relabel_copy":
+        new = list(ns)
+        rng.shuffle(new)
+        if rng.random() < 0.3:      # partial mapping, some fresh ids
+            new = [x if rng.random() < 0.6 else 200 + i for i, x in enumerate(new)]
+        spec["mapping"] = [[a, b] for a, b in zip(ns, new) if a != b or rng.random() < 0.5]
+    elif how == "relabel_inplace":
+        base = max([abs(x) for x in ns] + [0]) + 50
+        new = [base + i for i in range(len(ns))]
+        rng.shuffle(new)
+        spec["mapping"] = [[a, b] for a, b in zip(ns, new)]
+    elif how == "subgraph":
+        k = max(1, len(ns) - rng.randint(0, 2))
+        spec["nodes"] = rng.sample(ns, k)
+    if aam_map is not None:
+        spec["aam_map"] = aam_map
+    return spec
+
+
+def rand_aam_map(rng, graphs):
+    """old map number -> new map number / None (attribute deleted): permutation, fresh numbers, drops."""
+    ks = sorted({d["aam"] for x in graphs for _, d in x.nodes(data=True) if "aam" in d})
+    if not ks:
+        return []
+    policy = rng.choice(["permute", "fresh", "drop", "mixed", "none"])
+    if policy == "none":
+        return []
+    new = list(ks)
+    if policy in ("permute", "mixed"):
+        rng.shuffle(new)
+    out = []
+    fresh = max(ks + [0]) + 1
+    for a, b in zip(ks, new):
+        r = rng.random()
+        if policy in ("fresh", "mixed") and r < 0.35:
+            b = fresh
+            fresh += 1
+        elif policy in ("drop", "mixed") and r > 0.75:
+            b = None
+        if a != b:
+            out.append([a, b])
+    return out
+
+
+def derive(g, spec):
+    """Apply a rand_deriv recipe to the graph object g (relabel_inplace and same return g itself)."""
+    how = spec["how"]
+    if how == "copy":
+        d = g.copy()
+    elif how == "relabel_copy":
+        d = nx.relabel_nodes(g, {a: b for a, b in spec["mapping"]}, copy=True)
+    elif how == "relabel_inplace":
+        d = nx.relabel_nodes(g, {a: b for a, b in spec["mapping"]}, copy=False)
+    elif how == "subgraph":
+        d = g.subgraph(spec["nodes"]).copy()
+    else:
+        d = g
+    m = {a: b for a, b in spec.get("aam_map", [])}
+    for n in d.nodes:
+        dd = d.nodes[n]
+        if "aam" in dd and dd["aam"] in m:
+            if m[dd["aam"]] is None:
+                del dd["aam"]
+            else:
+                dd["aam"] = m[dd["aam"]]
+    return d
+
+
+def add_derivation(rng, c):
+    """Turn a get_its case into a history case: the base graphs are first passed to get_its, then the graphs under
+    test are DERIVED from those very objects; c["G"], c["H"] become the derived graphs' contents (computed on
+    untouched copies), which is what the model and the checkers see."""
+    g0, h0 = c["G"], c["H"]
+    am = rand_aam_map(rng, [g0, h0])
+    dg = rand_deriv(rng, g0, am if rng.random() < 0.8 else [])
+    dh = rand_deriv(rng, h0, am if rng.random() < 0.6 else [])
+    c["G0"], c["H0"], c["derivG"], c["derivH"] = g0, h0, dg, dh
+    c["G"] = gens.copy_exact(derive(gens.copy_exact(g0), dg))
+    c["H"] = gens.copy_exact(derive(gens.copy_exact(h0), dh))
+    c["policy"] = "history"
+    c.pop("G2", None)
+    c.pop("H2", None)
+    return c
+
+
+def graph_level_state(g):
+    import copy
+    return copy.deepcopy(dict(g.graph))
+
+
+def args_untouched(obj, ref, state):
+    """The argument object still has the contents of ref (nodes, adjacency, every attribute dict) and its
+    graph-level attribute dict G.graph is what it was."""
+    return gens.graphs_identical(obj, ref) and dict(obj.graph) == state
+
+
 HIST_KINDS = ["remove_node", "rename_symbol", "remove_edge", "relabel_edge", "add_node", "change_aam",
               "drop_idx_map", "prune", "split", "to_smiles"]
 
@@ -283,7 +394,10 @@ def generate(seed, tier, ncases=None):
                 continue
             except Exception:
                 pass
-        yield make_reaction(rng)
+        c = make_reaction(rng)
+        if rng.random() < 0.15:
+            c = add_derivation(rng, c)
+        yield c
 
 
 def corpus():
@@ -311,7 +425,19 @@ def corpus():
 
 
 def run_impl(c):
-    g, h = gens.copy_exact(c["G"]), gens.copy_exact(c["H"])
+    try:
+        if "derivG" in c:
+            # history: the base objects go through get_its first, the graphs under test are derived from them
+            g0, h0 = gens.copy_exact(c["G0"]), gens.copy_exact(c["H0"])
+            get_its(g0, h0)
+            g, h = derive(g0, c["derivG"]), derive(h0, c["derivH"])
+            if not (gens.graphs_identical(g, c["G"]) and gens.graphs_identical(h, c["H"])):
+                return ("HarnessError", "derived graphs differ from the recorded contents")
+        else:
+            g, h = gens.copy_exact(c["G"]), gens.copy_exact(c["H"])
+    except Exception as e:
+        return (type(e).__name__, "while deriving: " + str(e))
+    sg, sh = graph_level_state(g), graph_level_state(h)
     try:
         shared = False
         if c["op"] == "from_smiles" and "hist" in c:
@@ -333,7 +459,7 @@ def run_impl(c):
             out2 = get_its(gens.copy_exact(c["G2"]), gens.copy_exact(c["H2"]))
         except Exception as e:
             return (type(e).__name__, str(e))
-    return ("ok", out, gens.graphs_identical(g, c["G"]) and gens.graphs_identical(h, c["H"]), out2, shared)
+    return ("ok", out, args_untouched(g, c["G"], sg) and args_untouched(h, c["H"], sh), out2, shared)
 
 
 def check_domain(g):
@@ -378,9 +504,12 @@ def describe(c):
         d["smiles"] = c["smiles"]
     if "hist" in c:
         d["hist"] = c["hist"]
-    for k in ("G2", "H2"):
+    for k in ("G2", "H2", "G0", "H0"):
         if k in c:
             d[k] = ct.graph_py(c[k])
+    for k in ("derivG", "derivH"):
+        if k in c:
+            d[k] = c[k]
     return d
 
 
@@ -391,9 +520,12 @@ def from_json(d):
         c["smiles"] = d["smiles"]
     if "hist" in d:
         c["hist"] = d["hist"]
-    for k in ("G2", "H2"):
+    for k in ("G2", "H2", "G0", "H0"):
         if k in d:
             c[k] = ct.graph_from_py(d[k])
+    for k in ("derivG", "derivH"):
+        if k in d:
+            c[k] = d[k]
     return c
 
 
@@ -403,6 +535,8 @@ def describe_out(out):
 
 def key(c):
     hist = (c["hist"]["kind"], c["hist"]["seed"]) if "hist" in c else None
+    if "derivG" in c:
+        hist = (repr(c["derivG"]), repr(c["derivH"]), ct.graph_canon(c["G0"]), ct.graph_canon(c["H0"]))
     return (c["op"], hist, ct.graph_canon(c["G"]), ct.graph_canon(c["H"]))
 
 
@@ -414,6 +548,10 @@ def classes(c, out):
     yield "op=" + c["op"]
     if "hist" in c:
         yield "history=" + c["hist"]["kind"]
+    if "derivG" in c:
+        yield "derivedG=" + c["derivG"]["how"]
+        yield "derivedH=" + c["derivH"]["how"]
+        yield "derived_aam_changed=" + str(bool(c["derivG"].get("aam_map") or c["derivH"].get("aam_map")))
     yield "policy=" + c["policy"]
     yield "ids=" + c["scheme"]
     yield "result=" + out[0]
@@ -440,7 +578,7 @@ def py_invariants(c, out):
     if out[0] != "ok":
         msgs.append("get_its raised %s: %s" % (out[0], out[1]))
     elif not out[2]:
-        msgs.append("get_its mutated one of its arguments")
+        msgs.append("get_its changed one of its arguments (nodes, adjacency, an attribute dict or the graph-level dict G.graph)")
     elif out[4]:
         msgs.append("ITS.from_smiles returned an object sharing state with an earlier result for the same string "
                     "(history: %s)" % c["hist"]["kind"])
